@@ -960,3 +960,7 @@ mod tests {
         assert_eq!(generation_timestamp_ms("zzzzzzzzzzzzzzzz-00000000"), None);
     }
 }
+
+#[cfg(kani)]
+#[path = "/verif/harness/anda_object_store/sidecar.rs"]
+mod verif_kani;
